@@ -58,6 +58,7 @@ PROPS['C15'] = {
     'functions': ['(*tree.Tree).CopyNode', '(*tree.Tree).CopyEdge',
                   ('(*tree.Tree).removeSingleNodesRecur', {'match': [r'^callsite', r'^inv', r'^store']}),
                   '(*tree.Node).ParentEdge', '(*tree.Node).Parent', '(*tree.Tree).GraftTreeOnTip', '(*tree.Tree).InsertIdenticalTip',
+                  ('(*tree.Tree).InsertIdenticalTips', {'match': [r'^callsite', r'^post', r'^inv']}),
                   ('(*tree.Tree).copyTreeRecur', {'match': [r'^callsite']}), ('(*tree.Tree).Clone', {'match': [r'^callsite', r'^post']}),
                   ('(*tree.Tree).SubTree', {'match': [r'^callsite', r'^post']}), ('(*tree.Tree).Merge', {'match': [r'^callsite', r'^post', r'^inv']})],
     'trusted_base': TB_COMMON,
@@ -106,11 +107,11 @@ PROPS['C11'] = {
     'packages': ALLPK,
     'functions': [('tree.Compare$1', {'match': [r'^ownership', r'^post\.done', r'^nilchan', r'^sendclosed', r'^send\.stats\.error', r'^inv\..*L1']}),
                   ('tree.Compare$2', {}),
-                  ('tree.CompareWeighted$1', {'match': [r'^ownership', r'^post\.done', r'^nilchan', r'^sendclosed', r'^send\.stats\.error', r'^inv\..*L1', r'^callsite\..*(PutEdgeValue|Value@L)']}),
+                  ('tree.CompareWeighted$1', {'match': [r'^ownership', r'^post\.done', r'^nilchan', r'^sendclosed', r'^send\.stats\.(error|the_lists)', r'^inv\..*(L1|lists_built)', r'^callsite\..*(PutEdgeValue|Value@L)']}),
                   ('tree.CompareWeighted$2', {}),
                   ('support.FBP$1', {'match': [r'^ownership', r'^post\.done', r'^nilchan', r'^sendclosed', r'^return', r'^inv\..*L1', r'^callsite\..*@L1']}),
                   ('support.FBP$2', {}),
-                  ('support.TBE$1', {}),
+                  ('support.TBE$1', {}), ('support.TBE', {'match': [r'^callsite\.\(\*sync', r'^inv\..*L5']}),
                   ('support.TBE$2', {'match': [r'^ownership', r'^post\.done', r'^nilchan', r'^inv']}),
                   ('cmd.compareTreesCmd.RunE', {'match': [r'^nilchan']}),
                   ('(*hashmap.HashMap).Value', {'match': [r'^callsite', r'^post\.read_lock', r'^inv']}),
@@ -159,7 +160,7 @@ PROPS['C14'] = {
     'functions': ['tree.pathLengths',
                   ('(*tree.Tree).ToDistanceMatrix', {'match': [r'^callsite', r'^post', r'^inv', r'^bounds', r'^nil', r'^pre\.tree\.pathLengths\.0']}),
                   '(*tree.Tree).cutEdgesMaxLengthRecur', '(*tree.TipBag).AddTip',
-                  ('(*tree.Tree).CutEdgesMaxLength', {'match': [r'^callsite']}), ('tree.AvgDistanceMatrix', {'match': [r'^callsite', r'^step']})],
+                  ('(*tree.Tree).CutEdgesMaxLength', {'match': [r'^callsite']}), ('tree.AvgDistanceMatrix', {'match': [r'^callsite', r'^step']}), ('(*tree.Tree).ToDistanceMatrix$1', {'match': [r'^post']})],
     'trusted_base': TB_COMMON,
     'assumptions': A_COMMON,
     'not_decided': ['sum over the path / symmetry / zero diagonal as whole-tree facts (A-GRAPH)', 'AvgDistanceMatrix: per-entry accumulation and final division are proved; that tips2 of the last tree has the length of tips (loop bounds) is not', 'sorted order of rows (sort.Slice less function)', 'floating-point summation order (A-FP)'],
@@ -198,7 +199,7 @@ PROPS['C18'] = {
                           'asr.parsimonyDOWNPASS', 'asr.parsimonyDELTRAN', 'asr.parsimonyACCTRAN',
                           'cmd.randomTips', 'cmd.sampleCmd.RunE'],
     'functions': [('asr.parsimonyUPPASS', {'match': [r'^inv\..*L2']}),
-                  ('(*tree.Tree).Rename', {'match': [r'^inv', r'^loopframe', r'^nil', r'^pre']}), 'cmd.RootCmd.PersistentPreRun'],
+                  ('(*tree.Tree).Rename', {'match': [r'^inv', r'^loopframe', r'^nil', r'^pre']}), 'cmd.RootCmd.PersistentPreRun', '(*tree.TipBag).Tips', ('tree.Compare$1', {'match': [r'^ownership']}), ('tree.CompareWeighted$1', {'match': [r'^ownership', r'^send\.stats\.the_lists', r'^inv\..*lists_built']})],
     'trusted_base': TB_COMMON,
     'assumptions': A_COMMON,
     'explanation': 'Functional-postcondition argument under demonic map iteration at the listed sites (DESIGN.md section 4, C18); not a whole-program determinism proof.',
